@@ -106,6 +106,8 @@ def record_system(spec):
             _, a = systems.MISO_numeric_optimal_spectral_analysis([X[i] for i in perm], y, fs, **kw)
             add(a, "same", "permuted")
             A = rng.integers(-2, 3, size=(q, q)).astype(float) + 3 * np.eye(q)
+            while np.linalg.cond(A) > 20:                       # "invertibly re-mixing": a well-conditioned integer matrix
+                A = rng.integers(-2, 3, size=(q, q)).astype(float) + 3 * np.eye(q)
             Xm = [sum(A[i, k] * X[k] for k in range(q)) for i in range(q)]
             _, a = systems.MISO_analytic_optimal_spectral_analysis(Xm, y, fs, **kw) if q <= 3 else systems.MISO_numeric_optimal_spectral_analysis(Xm, y, fs, **kw)
             add(a, "same", "remixed")
